@@ -102,6 +102,7 @@ type Engine struct {
 	cexSeen   map[string]bool
 	scheduleMode bool
 	mapOrderMode bool
+	mapOrderFilter string // map-order mode only for ranges inside functions whose name contains this
 	preemptBound int
 	preemptions  int
 
